@@ -181,11 +181,30 @@ def d3_validation(ctx):
         'duplicate configuration numbers': lambda g: has(g, 'np.diff(') and ('== 0' in g),
         'samples/idl length mismatch': lambda g: has(g, 'len(sample)', 'self.shape['),
     }
+    # minimal number of names from which a kind can occur: every enclosing size guard must be true from there on
+    min_n = {'duplicate names': 2, 'several ensembles': 2, 'non-string names': 1, 'length mismatch samples/names': 1, 'length mismatch idl/names': 1}
     for kind, pred in kinds.items():
         hit = [r for r in raises if pred(r[2])]
         key = 'obs.py:Obs.__init__#rejects[%s]' % kind
         if hit:
             ctx.holds(rule, key, 'raise at line %d under `%s`' % (hit[0][0].lineno, hit[0][2][:100]), obs.loc(hit[0][0]))
+            if kind in min_n:
+                # union over all raises of this kind: for every number of names n >= min_n some raise must be reachable w.r.t. the size guards
+                covered = set()
+                for s_, gs_, txt_ in hit:
+                    ok_n = set(range(min_n[kind], 9))
+                    for t_, pol_ in gs_:
+                        tt = t_
+                        if isinstance(tt, ast.Compare) and len(tt.ops) == 1 and const(tt.comparators[0]) is not None and _inline(f, tt.left).split(' || ')[-1].split(':=')[-1] in ('len(%s)' % names, ) or \
+                                (isinstance(tt, ast.Compare) and len(tt.ops) == 1 and const(tt.comparators[0]) is not None and unparse(tt.left) == 'len(%s)' % names):
+                            c_ = const(tt.comparators[0])
+                            fn_ = {ast.Gt: lambda n: n > c_, ast.GtE: lambda n: n >= c_, ast.Lt: lambda n: n < c_, ast.LtE: lambda n: n <= c_, ast.Eq: lambda n: n == c_, ast.NotEq: lambda n: n != c_}.get(type(tt.ops[0]))
+                            if fn_ is not None:
+                                ok_n = {n for n in ok_n if fn_(n) == pol_}
+                    covered |= ok_n
+                missing = sorted(set(range(min_n[kind], 9)) - covered)
+                ctx.check(rule, key + '-size-guards', not missing, 'the rejection is reachable for every number of names >= %d' % min_n[kind],
+                          'with %s names the test for "%s" is skipped by an enclosing size guard' % (missing, kind), obs.loc(hit[0][0]))
         else:
             ctx.violated(rule, key, 'no raise statement of Obs.__init__ is guarded by a test for: %s' % kind, obs.loc(f))
     # fewer than five samples: threshold semantics
@@ -260,6 +279,54 @@ CONFIRMED_MEANS_SITES = {
 }
 
 
+def d5_idl_normalisation(ctx, obs):
+    """configuration lists are held as a range exactly when equally spaced: _merge_idx / _intersection_idx normalise their result"""
+    rule = 'C04-D5'
+    for fn, op in (('_merge_idx', 'union'), ('_intersection_idx', 'intersection')):
+        f = obs.func(fn)
+        p = f.args.args[0].arg
+        rets = [s for s in statements(f) if isinstance(s, ast.Return)]
+        key = 'obs.py:%s' % fn
+        fast = [r for r in rets if unparse(r.value) == '%s[0]' % p]
+        okf = len(fast) == 1 and [unparse(t) for t, pol in guards_of(obs, fast[0], stop=f) if pol] == ['_check_lists_equal(%s)' % p]
+        ctx.check(rule, key + '#identical-lists', okf, 'identical lists are returned unchanged', 'fast path differs', obs.loc(f))
+        rng = [r for r in rets if isinstance(r.value, ast.Name) and r.value.id == 'idrange']
+        okr = len(rng) == 1 and any('_check_lists_equal(idtest)' in unparse(t) and pol for t, pol in guards_of(obs, rng[0], stop=f))
+        ctx.check(rule, key + '#range-when-regular', okr, 'a range is returned when it reproduces the %s exactly' % op, 'range conversion missing or unguarded', obs.loc(f))
+        d = [s for s in statements(f) if isinstance(s, ast.Assign) and unparse(s.targets[0]) == 'idrange']
+        okd = len(d) == 1 and isinstance(d[0].value, ast.Call) and call_name(d[0].value) == 'range' and len(d[0].value.args) == 3
+        if okd:
+            a = [unparse(x) for x in d[0].value.args]
+            v = a[0].split('[')[0]
+            okd = a == ['%s[0]' % v, '%s[-1] + 1' % v, '%s[1] - %s[0]' % (v, v)]
+        ctx.check(rule, key + '#range-parameters', okd, 'candidate range(first, last + 1, second - first)', 'candidate range is %s' % [unparse(s.value) for s in d], obs.loc(f))
+        t = [s for s in statements(f) if isinstance(s, ast.Assign) and unparse(s.targets[0]) == 'idtest']
+        ctx.check(rule, key + '#range-test', len(t) == 1 and unparse(t[0].value).startswith('[list(idrange), id'), 'the candidate is compared element-wise with the sorted %s' % op, 'range test %s' % [unparse(s.value) for s in t], obs.loc(f))
+        srt = [s for s in statements(f) if isinstance(s, ast.Assign) and isinstance(s.value, ast.Call) and call_name(s.value) == 'sorted']
+        want = 'sorted(set().union(*%s))' % p if op == 'union' else 'sorted(set.intersection(*[set(o) for o in %s]))' % p
+        ctx.check(rule, key + '#sorted-%s' % op, len(srt) == 1 and unparse(srt[0].value) == want, 'result = sorted %s of the lists' % op, 'result built as %s' % [unparse(s.value) for s in srt], obs.loc(f))
+    f = obs.func('_check_lists_equal')
+    t = unparse(f)
+    ok = 'groupby(' in t and 'next(g, True) and (not next(g, False))' in t
+    ctx.check(rule, 'obs.py:_check_lists_equal', ok, 'all elements equal <=> exactly one group', '_check_lists_equal differs')
+    # N = sum of chain lengths, shape = len(idl) in the constructor
+    f = obs.func('Obs.__init__')
+    sh = [s for s in statements(f) if isinstance(s, ast.Assign) and unparse(s.targets[0]) == 'self.shape[name]']
+    ok = len(sh) == 2 and all(unparse(s.value) == 'len(self.idl[name])' for s in sh)
+    ctx.check(rule, 'obs.py:Obs.__init__#shape', ok, 'recorded chain length = length of the configuration list', 'shape = %s' % [unparse(s.value) for s in sh])
+    nn = [s for s in statements(f) if isinstance(s, ast.AugAssign) and unparse(s.target) == 'self.N']
+    ok = len(nn) == 2 and all(unparse(s.value) == 'self.shape[name]' and isinstance(s.op, ast.Add) for s in nn)
+    ctx.check(rule, 'obs.py:Obs.__init__#N', ok, 'sample count = sum of the chain lengths', 'N accumulates %s' % [unparse(s.value) for s in nn])
+    dflt = [s for s in statements(f) if isinstance(s, ast.Assign) and isinstance(s.value, ast.Call) and unparse(s.value) == 'range(1, len(sample) + 1)']
+    ctx.check(rule, 'obs.py:Obs.__init__#default-idl', len(dflt) == 1, 'default configuration list range(1, n + 1)', 'default idl differs')
+    ens = obs.func('Obs.e_names')
+    ok = "sorted(set([o.split('|')[0] for o in self.names]))" in unparse(ens)
+    ctx.check(rule, 'obs.py:Obs.e_names', ok, "chains group into ensembles by the text before '|'", 'e_names differs')
+    mc = obs.func('Obs.mc_names')
+    ok = "sorted(set([o.split('|')[0] for o in self.names if o not in self.cov_names]))" in unparse(mc)
+    ctx.check(rule, 'obs.py:Obs.mc_names', ok, 'Monte Carlo ensembles exclude covariance names', 'mc_names differs')
+
+
 def d4_trusted_path(ctx):
     rule = 'C04-D4'
     n = 0
@@ -287,6 +354,8 @@ def run(ctx):
     ctx.guarded('C04-D2', 'package@reweighted', d2_slot_types, ctx)
     ctx.guarded('C04-D3', 'obs.py@validation', d3_validation, ctx)
     ctx.guarded('C04-D4', 'package@means', d4_trusted_path, ctx)
+    ctx.rule('C04-D5', 'configuration lists normalised to ranges; chain bookkeeping (shape, N, ensembles)')
+    ctx.guarded('C04-D5', 'obs.py@idl', d5_idl_normalisation, ctx, obs)
 
 
 SELFTEST = [
@@ -302,5 +371,9 @@ SELFTEST = [
     ('names-not-sorted', 'pyerrors/obs.py', "        self.names = sorted(names)", "        self.names = list(names)", 'C04-D3'),
     ('new-means-site', 'pyerrors/obs.py', "    ret = Obs([samples], [name])\n    ret._value = boots[0]", "    ret = Obs([samples - np.mean(samples)], [name], means=[np.mean(samples)])\n    ret._value = boots[0]", 'C04-D4'),
     ('reweighted-numpy', 'pyerrors/obs.py', "    o.reweighted = obs_a.reweighted or obs_b.reweighted", "    o.reweighted = np.logical_or(obs_a.reweighted, obs_b.reweighted)", 'C04-D2'),
+    ('names-guard-weakened', 'pyerrors/obs.py', "            if name_length > 1:\n                if name_length != len(set(names)):", "            if name_length > 2:\n                if name_length != len(set(names)):", 'C04-D3'),
+    ('merge-no-range', 'pyerrors/obs.py', "    idtest = [list(idrange), idunion]\n    if _check_lists_equal(idtest):\n        return idrange\n\n    return idunion", "    return idunion", 'C04-D5'),
+    ('merge-range-unchecked', 'pyerrors/obs.py', "    idtest = [list(idrange), idunion]\n    if _check_lists_equal(idtest):\n        return idrange\n\n    return idunion", "    return idrange", 'C04-D5'),
+    ('N-from-samples', 'pyerrors/obs.py', "                self.shape[name] = len(self.idl[name])\n                self.N += self.shape[name]\n                self.r_values[name] = mean", "                self.shape[name] = len(self.idl[name])\n                self.N += 1\n                self.r_values[name] = mean", 'C04-D5'),
     ('benign-five', 'pyerrors/obs.py', "if min(len(x) for x in samples) <= 4:", "if min(len(x) for x in samples) < 5:", 'BENIGN'),
 ]
